@@ -374,6 +374,10 @@ def job(h, params, mode):
         return job_tail(h, params)
     if mode == "cmpbv":
         return job_cmp_bv()
+    if mode == "inv":
+        # Inverse: loop invariant at the loop heads of the real SSA (partial correctness for every input)
+        from checks import c15inv
+        return c15inv.job(params["alias"])
     ctx, ex = D.execute(PROG, FR + "." + h, intmode=mode, params=params, setup=setup_fr, harness_pkgs=[FR], globals_init=GLOBALS)
     obs = (spec_bv if mode == "bv" else spec_int)(h, ctx, params)
     ctx.reach_hint = {"x0": 1, "x1": 2, "x2": 3, "x3": 4, "y0": 5, "y1": 6, "y2": 7, "y3": 8, "v": 77, "i": 3}
@@ -406,6 +410,9 @@ def job(h, params, mode):
 
 
 def make_replay(h, params, mode):
+    if mode == "inv":
+        from checks import c15inv
+        return c15inv.make_replay(BUILD, params)
     if mode == "bi":
         def cb3(rec):
             from checks.c01 import real_to_mod
@@ -490,8 +497,10 @@ def run(tier, seed):
                   "aliasing": "receiver/operand patterns 0..4 enumerated (distinct, z=x, z=y, x=y, all equal)",
                   "assembly": "every TEXT symbol of the three .s files (ADX path symbolically, fallback = call of the portable function with unchanged arguments), aliasing patterns of the pointer arguments enumerated",
                   "BatchInvert": "every zero pattern of n <= 4 inputs (31 runs), rational-function identities res[i]*a[i] = 1, zero -> zero, input untouched",
-                  "outside": "Inverse, Sqrt, Exp, Legendre (not built); schoolbook lemma sum P(x_i,y_j)W^(i+j)=x*y taken on paper; violations found in the assembly groups are reported without native replay (the replay would need the mutated assembly to be the one linked, which it is: see DESIGN 0.2)"}
-    rep.assumptions = ["abstract 64x64 product P(a,b) constrained only by 0<=P<=(2^64-1)a,(2^64-1)b (true of real multiplication)",
+                  "Inverse": "binary extended Euclid loop by a loop invariant at its loop heads and after the subtraction step (every input < r, every loop state satisfying the invariant, no unrolling): partial correctness, result = R^2 x^-1 mod r, Inverse(0) = 0, receiver aliasing the operand",
+                  "outside": "termination of the Inverse loop (gcd argument); Sqrt, Exp, Legendre (not built); Div = Mul o Inverse is not run separately; schoolbook lemma sum P(x_i,y_j)W^(i+j)=x*y taken on paper; violations found in the assembly groups are reported without native replay (the replay would need the mutated assembly to be the one linked, which it is: see DESIGN 0.2)"}
+    rep.assumptions = ["Inverse: phi(t) = t R^2 x^-1 mod r is uninterpreted; only true instances of its linearity (halving, difference), phi(r)=0, phi(x)=R^2 mod r and its range are given; the exit value phi(1) is the Montgomery form of the inverse (paper step)",
+                       "abstract 64x64 product P(a,b) constrained only by 0<=P<=(2^64-1)a,(2^64-1)b (true of real multiplication)",
                        "dropped-result lemmas are proved before use, never assumed", "operands are reduced (documented Element invariant)"]
     lin_names = ("VerifC15Add", "VerifC15Sub", "VerifC15Double", "VerifC15Neg", "VerifC15Reduce", "VerifC15API", "VerifC15Butterfly")
     jobs = [(h, p, "int") for h, p in INT_JOBS] + [(h, p, "int") for h, p in BV_JOBS if h in lin_names]
@@ -502,6 +511,7 @@ def run(tier, seed):
     jobs += [("VerifC15Mul", {"alias": a}, "tail") for a in (range(5) if tier == "thorough" else (0, 4))] + [("VerifC15FromMont", {}, "tail"), ("VerifC15Cmp", {}, "cmpbv")]
     jobs += [("VerifC15BatchInvert", {"n": n, "zeromask": m_}, "bi") for n in range(0, 5) for m_ in range(1 << n)]
     jobs.sort(key=lambda j: 0 if j[2] == "int" else 1)
+    jobs = [("VerifC15Inverse", {"alias": a}, "inv") for a in (0, 1)] + jobs
 
     def on_result(a, item):
         rep.add(item["group"], item["recs"], _Info(item["info"]), key_prefix=item["harness"], replay=make_replay(item["harness"], item["params"], item["mode"]))
